@@ -247,10 +247,23 @@ type target struct {
 	hi    *smt.Term
 	elem  types.Type
 	guard *smt.Term // the write happens only under this condition (nil = always)
+	heaps []leaf    // or whole leaf heaps (allof)
 }
 
 func (x *exec) evalAssign(ev *Eval, a spec.Expr) target {
 	if c, ok := a.(*spec.Call); ok {
+		if id, ok := c.Fun.(*spec.Ident); ok && id.Name == "allof" {
+			// allof(p.f): the field f of every object of p's type (the whole leaf heap)
+			inner := x.evalAssign(ev, c.Args[0])
+			if inner.loc == nil || inner.loc.Kind != LRoot || len(inner.loc.Path) != 1 || inner.loc.Path[0].Idx != nil {
+				ev.fail("allof() takes a field of a struct cell")
+			}
+			si := x.p.T.StructOf(inner.loc.Root)
+			f := si.Fields[inner.loc.Path[0].Field]
+			var ls []leaf
+			x.env.leafNames("H$"+si.Sort.Name+"."+sanitize(f.Name()), x.p.T.SortOf(f.Type()), &ls)
+			return target{heaps: ls}
+		}
 		if id, ok := c.Fun.(*spec.Ident); ok && (id.Name == "spare" || id.Name == "content" || id.Name == "backing") {
 			v := ev.Eval(c.Args[0])
 			sl, ok := v.T.Underlying().(*types.Slice)
@@ -283,7 +296,7 @@ func (x *exec) evalAssign(ev *Eval, a spec.Expr) target {
 				if st, ok := pt.Elem().Underlying().(*types.Struct); ok {
 					fi, ft := fieldIndex(st, a.Name)
 					if fi >= 0 {
-						return target{loc: v.Loc.extend(pathElem{Field: fi, T: ft})}
+						return target{loc: x.env.Field(v.Loc, fi, ft)}
 					}
 				}
 			}
@@ -294,7 +307,7 @@ func (x *exec) evalAssign(ev *Eval, a spec.Expr) target {
 			if st, ok := inner.loc.Type().Underlying().(*types.Struct); ok {
 				fi, ft := fieldIndex(st, a.Name)
 				if fi >= 0 {
-					return target{loc: inner.loc.extend(pathElem{Field: fi, T: ft})}
+					return target{loc: x.env.Field(inner.loc, fi, ft)}
 				}
 			}
 		}
@@ -317,6 +330,12 @@ func (x *exec) evalAssign(ev *Eval, a spec.Expr) target {
 
 // havocTarget forgets the content of a target in st.
 func (x *exec) havocTarget(st *pstate, t target) {
+	if t.heaps != nil {
+		for _, lf := range t.heaps {
+			st.heap[lf.name] = x.env.Fresh(lf.name+"$havoc", lf.sort)
+		}
+		return
+	}
 	if t.loc != nil {
 		if t.loc.global != nil {
 			return
@@ -339,6 +358,12 @@ func (x *exec) havocTarget(st *pstate, t target) {
 // covered: the write target t is permitted by the function's own assigns clause (evaluated at entry).
 func (x *exec) covered(st *pstate, t target) *smt.Term {
 	var alts []*smt.Term
+	if t.heaps != nil {
+		if x.monitor != nil {
+			return smt.True
+		}
+		return smt.False
+	}
 	// freshly allocated memory is always writable
 	if t.loc != nil {
 		if t.loc.fresh {
@@ -438,14 +463,16 @@ func (x *exec) frameCheckRange(st *pstate, t target, in ssa.Instruction, what st
 	x.check(st, "frame."+x.ord[in]+what, "frame", goal, in.Pos(), "write is permitted by the assigns clause")
 }
 
+// callInfo is what applying a contract needs to know about the callee.
+type callInfo struct {
+	names   []string
+	sig     *types.Signature
+	name    string
+	key     string
+	tparams map[string]types.Type
+}
+
 func (x *exec) applyContract(st *pstate, c *Contract, callee *ssa.Function, args []Val, argTypes []types.Type, in ssa.Instruction) Val {
-	names := contractParamNames(c, callee)
-	if len(names) != len(args) {
-		panic(specErr{fmt.Sprintf("%s: contract of %s has %d parameters, call has %d arguments", c.C.Pos, c.C.Key(), len(names), len(args))})
-	}
-	if len(c.C.Ghost) > 0 {
-		unsupp("call to %s whose contract has ghost parameters", c.C.Key())
-	}
 	// type parameters of the callee bound to the actual type arguments
 	tparams := map[string]types.Type{}
 	origin := callee
@@ -462,9 +489,25 @@ func (x *exec) applyContract(st *pstate, c *Contract, callee *ssa.Function, args
 			}
 		}
 	}
+	ci := callInfo{names: contractParamNames(c, callee), sig: callee.Signature, name: callee.Name(), key: FuncKey(callee), tparams: tparams}
+	return x.applyContractInfo(st, c, ci, args, argTypes, in)
+}
+
+func (x *exec) applyContractInfo(st *pstate, c *Contract, ci callInfo, args []Val, argTypes []types.Type, in ssa.Instruction) Val {
+	names := ci.names
+	tparams := ci.tparams
+	if len(names) != len(args) {
+		panic(specErr{fmt.Sprintf("%s: contract of %s has %d parameters, call has %d arguments", c.C.Pos, c.C.Key(), len(names), len(args))})
+	}
+	if len(c.C.Ghost) > 0 {
+		unsupp("call to %s whose contract has ghost parameters", c.C.Key())
+	}
+	if c.C.Trusted {
+		x.p.Trusted[ci.key] = true
+	}
 	sc := &scope{vars: map[string]SV{}}
 	mkEval := func(heap, old map[string]*smt.Term) *Eval {
-		return &Eval{P: x.p, Env: x.env, Pkg: c.Pkg, Heap: heap, Old: old, Scope: sc, TParams: tparams}
+		return &Eval{P: x.p, Env: x.env, Pkg: c.Pkg, Heap: heap, Old: old, Scope: sc, TParams: tparams, Facts: func(t *smt.Term) { st.assume(t, "type invariant of a value read by a specification") }}
 	}
 	ev := mkEval(st.heap, st.heap)
 	for i, n := range names {
@@ -479,7 +522,7 @@ func (x *exec) applyContract(st *pstate, c *Contract, callee *ssa.Function, args
 		}
 		x.check(st, lab, "pre", ev.Bool(r.E), in.Pos(), fmt.Sprintf("precondition of %s: %s", c.C.Key(), r.Text))
 	}
-	x.monitorCallPre(st, c, callee, args, in)
+	x.monitorCallPre(st, c, ci, args, in)
 	pre := st.heapSnapshot()
 	evPre := mkEval(pre, pre)
 	if !c.C.Pure {
@@ -488,10 +531,12 @@ func (x *exec) applyContract(st *pstate, c *Contract, callee *ssa.Function, args
 		nn := x.env.Fresh("next$call", smt.Int)
 		st.assume(smt.IGe(nn, next), "allocation only grows")
 		st.heap["next"] = nn
-		al := x.env.heapVar(st.heap, "allocated", BV64)
-		na := x.env.Fresh("allocated$call", BV64)
-		st.heap["allocated"] = na
-		_ = al
+		if mayAllocate(c) {
+			al := x.env.heapVar(st.heap, "allocated", BV64)
+			na := x.env.Fresh("allocated$call", BV64)
+			st.heap["allocated"] = na
+			_ = al
+		}
 		for _, a := range c.C.Assigns {
 			t := x.evalAssign(evPre, a)
 			if !x.c.C.Trusted {
@@ -501,7 +546,7 @@ func (x *exec) applyContract(st *pstate, c *Contract, callee *ssa.Function, args
 		}
 	}
 	// results
-	sig := callee.Signature
+	sig := ci.sig
 	var results []Val
 	var cnames []string
 	for _, r := range c.C.Results {
@@ -528,8 +573,8 @@ func (x *exec) applyContract(st *pstate, c *Contract, callee *ssa.Function, args
 	}
 	for i, rt := range rtypes {
 		s := x.p.T.SortOf(rt)
-		rv := x.env.FreshVal("ret$"+callee.Name(), s)
-		st.assume(x.p.T.Inv(rv, rt, 0), "type invariant of result of "+callee.Name())
+		rv := x.env.FreshVal("ret$"+ci.name, s)
+		st.assume(x.p.T.Inv(rv, rt, 0), "type invariant of result of "+ci.name)
 		x.assumeAllocated(st, rv, rt)
 		w := x.wrap(rv, rt)
 		results = append(results, w)
@@ -562,7 +607,7 @@ func (x *exec) applyContract(st *pstate, c *Contract, callee *ssa.Function, args
 			st.assume(smt.Implies(smt.And(as...), post.Bool(e.E)), fmt.Sprintf("behavior %s of %s", b.Name, c.C.Key()))
 		}
 	}
-	x.monitorCallPost(st, c, callee, args, in)
+	x.monitorCallPost(st, c, ci, args, in)
 	switch len(results) {
 	case 0:
 		return nil
@@ -570,6 +615,21 @@ func (x *exec) applyContract(st *pstate, c *Contract, callee *ssa.Function, args
 		return results[0]
 	}
 	return Tuple(results)
+}
+
+// mayAllocate: the contract says `mayalloc` or speaks about the allocation counter itself.
+// Otherwise callers may assume that the counted allocations (make, string conversions) do not
+// happen in the callee, and the callee's own verification checks exactly that at every return.
+func mayAllocate(c *Contract) bool {
+	if c.C.Mayalloc {
+		return true
+	}
+	for _, e := range c.C.Ensures {
+		if strings.Contains(e.Text, "allocated") {
+			return true
+		}
+	}
+	return false
 }
 
 // ---- builtins
@@ -833,9 +893,21 @@ func (x *exec) invoke(st *pstate, cc *ssa.CallCommon, args []Val, argTypes []typ
 }
 
 func (x *exec) applyIfaceContract(st *pstate, c *Contract, cc *ssa.CallCommon, args []Val, argTypes []types.Type, in ssa.Instruction) Val {
-	// build a pseudo callee from the method signature
-	unsupp("interface contracts not yet implemented (%s)", c.C.Key())
-	return nil
+	// the contract's parameter names: receiver first, then the method's parameters
+	sig := cc.Signature()
+	names := []string{c.C.RecvName}
+	if names[0] == "" {
+		names[0] = "recv"
+	}
+	for i, p := range c.C.Params {
+		n := p.Name
+		if n == "" || n == "_" {
+			n = fmt.Sprintf("arg%d", i)
+		}
+		names = append(names, n)
+	}
+	ci := callInfo{names: names, sig: sig, name: cc.Method.Name(), key: c.C.PkgPath + "." + c.C.Key(), tparams: map[string]types.Type{}}
+	return x.applyContractInfo(st, c, ci, args, argTypes, in)
 }
 
 func (x *exec) dynamicCall(st *pstate, cc *ssa.CallCommon, args []Val, argTypes []types.Type, in ssa.Instruction) Val {
